@@ -111,6 +111,31 @@ type evaluationContext struct {
 	Global *globalEvaluationContext
 }
 
+// resolveLinkIRI resolves the value of @href or @src, which hold an IRI and never a CURIE or a term.
+func resolveLinkIRI(value string, baseURL *iri.ParsedIRI) rdf.SubjectValue {
+	if len(value) == 0 {
+		if baseURL != nil {
+			return rdf.IRI(baseURL.String())
+		}
+
+		return nil
+	}
+
+	if strings.ContainsRune(value, ':') {
+		if parsed, err := iri.ParseIRI(value); err == nil && parsed.IsAbs() {
+			return rdf.IRI(value)
+		}
+	}
+
+	if baseURL != nil {
+		if resolved, err := baseURL.Parse(value); err == nil {
+			return rdf.IRI(resolved.String())
+		}
+	}
+
+	return rdf.IRI(value)
+}
+
 func resolveIRI(ectx evaluationContext, prefixes *iri.PrefixManager, value string, baseURL *iri.ParsedIRI, defaultVocabulary *string, allowSafeCurie bool, allowTerms bool) rdf.SubjectValue {
 	if len(value) == 0 {
 		if baseURL != nil {
